@@ -351,6 +351,10 @@ class Emitter:
             return m(e, env, k, expect)
         return m(e, env, k)
 
+    def e_term(self, e, env, k):
+        """an already translated term (internal node, see e_mcall)"""
+        return k(e.term, e.ty, env)
+
     def e_paren(self, e, env, k):
         return self.expr(e.e, env, k)
 
@@ -469,7 +473,32 @@ class Emitter:
 
     CMP = {"==": "=?", "<": "<?", "<=": "<=?"}
 
+    def fold_literal(self, e):
+        """value of an expression built from unsuffixed integer literals only (rustc evaluates it at
+        compile time, at the type inferred from the context), else None"""
+        if e.kind == "paren":
+            return self.fold_literal(e.e)
+        if e.kind == "int":
+            return e.val if not e.suffix else None
+        if e.kind == "binary" and e.op in ("+", "-", "*", "<<"):
+            a, b = self.fold_literal(e.l), self.fold_literal(e.r)
+            if a is None or b is None:
+                return None
+            v = {"+": a + b, "-": a - b, "*": a * b, "<<": a << b if 0 <= b < 31 else -1}[e.op]
+            # a constant that overflows is rejected by rustc (deny(arithmetic_overflow)); the narrowest
+            # type it may adopt here is checked by the consumer (lit adopts the other operand's type)
+            if not 0 <= v < 2 ** 31:
+                raise EmitError("constant expression out of range")
+            return v
+        return None
+
     def e_binary(self, e, env, k):
+        if self.v.get("fold_literals") and e.op not in ("&&", "||"):
+            fl, fr = self.fold_literal(e.l), self.fold_literal(e.r)
+            if (fl is not None and e.l.kind != "int") or (fr is not None and e.r.kind != "int"):
+                e = N("binary", op=e.op,
+                      l=N("int", val=fl, suffix=None) if fl is not None else e.l,
+                      r=N("int", val=fr, suffix=None) if fr is not None else e.r)
         op = e.op
         if op in ("&&", "||"):
             def k1(a, aty, env1):
@@ -950,6 +979,8 @@ class Emitter:
         if k == "ptstruct":
             if self.payload_variant(p) is not None:
                 return all(x.kind in ("pwild", "pident") or (x.kind == "pref" and x.inner.kind in ("pwild", "pident")) for x in p.elems)
+            if self.enum_payload(p) is not None:
+                return all(self.pat_is_ctor_like(x, UNKNOWN) for x in p.elems)
             return p.segs[-1] in ("Some", "Ok", "Err") and all(self.pat_is_ctor_like(x, UNKNOWN) for x in p.elems)
         if k == "ptuple":
             return all(self.pat_is_ctor_like(x, UNKNOWN) for x in p.elems)
@@ -964,7 +995,22 @@ class Emitter:
         en = self.v.get("enums", {}).get(p.segs[-2])
         if en is None:
             return None
-        return en.get("payload", {}).get(p.segs[-1])
+        ent = en.get("payload", {}).get(p.segs[-1])
+        return ent if isinstance(ent, tuple) else None      # form (coq constructor, payload types); the list form is enum_payload's
+    def enum_payload(self, p):
+        """(constructor, payload types) when the tuple-struct pattern `p` names a variant with payload of a
+        vocabulary enum (optional key `payload: {variant: [types]}`), else None"""
+        if len(p.segs) < 2:
+            return None
+        en = self.v.get("enums", {}).get(self.self_struct if p.segs[-2] == "Self" and self.self_struct else p.segs[-2])
+        if en is None or p.segs[-1] not in en.get("payload", {}) or p.segs[-1] not in en["variants"]:
+            return None
+        if not isinstance(en["payload"][p.segs[-1]], list):
+            return None
+        tys = en["payload"][p.segs[-1]]
+        if len(tys) != len(p.elems):
+            raise EmitError("pattern %s: %d fields, the vocabulary models %d" % ("::".join(p.segs), len(p.elems), len(tys)))
+        return en["variants"][p.segs[-1]], tys
 
     def coq_pattern(self, p, ty, binds):
         """native Gallina pattern; binds collects (rust name, coq name, type)"""
@@ -999,6 +1045,9 @@ class Emitter:
                 raise EmitError("pattern %s: %d fields, the vocabulary models %d" % (ctor, len(p.elems), len(ptys)))
             return "(%s %s)" % (ctor, " ".join(self.coq_pattern(x, t, binds) for x, t in zip(p.elems, ptys)))
         if k == "ptstruct":
+            ep = self.enum_payload(p)
+            if ep is not None:
+                return "(%s %s)" % (ep[0], " ".join(self.coq_pattern(x, t, binds) for x, t in zip(p.elems, ep[1])))
             name = p.segs[-1]
             inner = ty[1] if ty[0] == "opt" else UNKNOWN
             if ty[0] == "res" and name in ("Ok", "Err"):
@@ -1175,6 +1224,8 @@ class Emitter:
                 else:
                     if not self.pat_is_ctor_like(pp, tys[0]) or (is_int(tys[0]) and pp.kind == "ppath"):
                         native = False
+            if any(t[0] == "enum" and self.v["enums"][t[1]].get("native", True) is False for t in tys):
+                native = False
             if native and not all(is_int(t) for t in tys):
                 def build(kk):
                     out = ["match %s with" % ", ".join(terms)]
@@ -1398,14 +1449,19 @@ class Emitter:
             if rty[0] == "coq":
                 tname = "coq"
             # translated methods of a struct
+            # a receiver that is no place (a call chain `a().b().c()`) and is only read: it has been
+            # evaluated just now, pass the term on instead of translating the expression a second time
+            recv = e.recv
+            if self.place_root(e.recv) is None:
+                recv = N("term", term=rt, ty=rty)
             shape = self.fn_shapes.get("%s::%s" % (tname, name))
             if shape is not None:
-                return self.call_shape(shape, e.recv, e.args, env1, k)
+                return self.call_shape(shape, recv if shape.get("self") == "in" else e.recv, e.args, env1, k)
             ent = self.v.get("methods", {}).get((tname, name)) or self.v.get("fns", {}).get("%s::%s" % (tname, name))
             if ent is not None:
                 if callable(ent):
                     return ent(self, e, rt, rty, env1, k)
-                return self.call_shape(ent, e.recv, e.args, env1, k)
+                return self.call_shape(ent, recv if ent.get("self") == "in" else e.recv, e.args, env1, k)
             b = getattr(self, "m_%s_%s" % (rty[0], name), None)
             if b is not None:
                 return b(e, rt, rty, env1, k)
@@ -1930,9 +1986,11 @@ class Emitter:
             self.counter[cn] = 1
         outs = []
         if shape["self"]:
-            sn = self.fresh(self.v["structs"][struct].get("var", "p"))
-            env = env.bind("self", sn, ("struct", struct), "ref" if shape["self"] == "inout" else False)
-            binders.append("(%s : %s)" % (sn, self.coq_ty(("struct", struct))))
+            # `impl <enum>`: self is a value of the vocabulary enum
+            sty = ("enum", struct) if struct not in self.v.get("structs", {}) and struct in self.v.get("enums", {}) else ("struct", struct)
+            sn = self.fresh(self.v["structs"][struct].get("var", "p") if sty[0] == "struct" else self.v["enums"][struct].get("var", "a"))
+            env = env.bind("self", sn, sty, "ref" if shape["self"] == "inout" else False)
+            binders.append("(%s : %s)" % (sn, self.coq_ty(sty)))
             if shape["self"] == "inout":
                 outs.append("self")
         for (pat, ty), (mode, pty) in zip(fn.params, shape["params"]):
